@@ -313,3 +313,61 @@ Definition names_run r PF CA : rres :=
 Definition dangling_names (O : order) (detection_names referenced : list str) : list str :=
   sorted_strs (ord O (s_diff detection_names referenced)).
 Definition unknown_refs (O : order) (refs : list str) : list str := sorted_strs (ord O (norm refs)).
+
+(* ---------------------------------------------------------------------------------------- *)
+(* SigmaCorrelationCondition.from_dict (correlations.py): the condition dict of a correlation rule.
+   The operator is found by iterating the SET operators() and taking the first operator that is a key of
+   the dict; this is order-sensitive unless exactly one operator key is present, which the check
+   `len(d_keys.intersection(ops)) != 1` (d_keys = all keys, whatever their value) guarantees. *)
+Inductive cval := VInt (digits : str) | VNull | VBad (repr : str).   (* int, None, anything int() rejects *)
+Definition corr_ops : list str :=
+  [[103;116;101]; [103;116]; [108;116;101]; [108;116]; [101;113]; [110;101;113]].   (* gte gt lte lt eq neq *)
+Definition k_field : str := [102;105;101;108;100].
+Definition k_percentile : str := [112;101;114;99;101;110;116;105;108;101].
+Definition msg_one_item : str :=   (* "Sigma correlation condition must have exactly one condition item" *)
+  [83;105;103;109;97;32;99;111;114;114;101;108;97;116;105;111;110;32;99;111;110;100;105;116;105;111;110;32;109;117;115;116;32;104;97;118;101;32;101;120;97;99;116;108;121;32;111;110;101;32;99;111;110;100;105;116;105;111;110;32;105;116;101;109].
+Definition msg_count_tail : str :=  (* "' is no valid Sigma correlation condition count" *)
+  [39;32;105;115;32;110;111;32;118;97;108;105;100;32;83;105;103;109;97;32;99;111;114;114;101;108;97;116;105;111;110;32;99;111;110;100;105;116;105;111;110;32;99;111;117;110;116].
+Definition s_None : str := [78;111;110;101].
+Inductive cres := COk (op : str) (count : str) | CErr (msg : str).
+
+Definition corr_from_dict (O : order) (d : list (str * cval)) : cres :=
+  let present := filter (fun op => haskey op d) corr_ops in
+  match present with
+  | [_] =>
+      let unknown := filter (fun k => negb (smem k corr_ops) && negb (str_eqb k k_field) && negb (str_eqb k k_percentile))
+                            (map fst d) in
+      match norm unknown with
+      | _ :: _ => CErr (msg_corr ++ sorted_join O (norm unknown))
+      | [] =>
+          match find (fun op => haskey op d) (ord O corr_ops) with
+          | Some op =>
+              match lookup op d with
+              | Some (VInt z) => COk op z
+              | Some VNull => CErr ([39] ++ s_None ++ msg_count_tail)
+              | Some (VBad x) => CErr ([39] ++ x ++ msg_count_tail)
+              | None => CErr []
+              end
+          | None => CErr []     (* UnboundLocalError in the code; unreachable, see corr_from_dict_order_free *)
+          end
+      end
+  | _ => CErr msg_one_item
+  end.
+
+(* the same function with the weakened check of a seeded change: keys with a null value are not counted *)
+Definition corr_from_dict_weak (O : order) (d : list (str * cval)) : cres :=
+  let counted := filter (fun op => match lookup op d with Some VNull => false | Some _ => true | None => false end) corr_ops in
+  match counted with
+  | [_] =>
+      match find (fun op => haskey op d) (ord O corr_ops) with
+      | Some op =>
+          match lookup op d with
+          | Some (VInt z) => COk op z
+          | Some VNull => CErr ([39] ++ s_None ++ msg_count_tail)
+          | Some (VBad x) => CErr ([39] ++ x ++ msg_count_tail)
+          | None => CErr []
+          end
+      | None => CErr []
+      end
+  | _ => CErr msg_one_item
+  end.
